@@ -202,8 +202,9 @@ impl EventLoop {
             // If available, prioritises pending requests from previous session.
             // Else, pulls next request from user requests channel.
             // If conditions in the below branch are for flow control.
-            // The branch is disabled if there's no pending messages and new user requests
-            // cannot be serviced due flow control.
+            // The branch is disabled if requests cannot be serviced due flow control. That
+            // holds for pending messages too: the broker may have lowered receive-maximum
+            // below the number of publishes the previous connection left unacknowledged.
             // We read next user user request only when inflight messages are < configured inflight
             // and there are no collisions while handling previous outgoing requests.
             //
@@ -230,7 +231,7 @@ impl EventLoop {
                 &mut self.pending,
                 &self.requests_rx,
                 self.options.pending_throttle
-            ), if !collision && (!self.pending.is_empty() || !inflight_full) => match o {
+            ), if !collision && !inflight_full => match o {
                 Ok(request) => {
                     if let Some(outgoing) = self.state.handle_outgoing_packet(request)? {
                         network.write(outgoing).await?;
